@@ -1,7 +1,7 @@
 """job generator shared by the properties that use the VM step engine"""
 import os, re
 REAL = ['src/interpret.c', 'lib/lpc/operator.c', 'src/stack.c', 'src/frame.c', 'lib/lpc/svalue.c', 'src/stralloc.c', 'lib/lpc/array.c',
-        'lib/lpc/mapping.c', 'lib/lpc/buffer.c', 'lib/lpc/class.c', 'lib/misc/hash.c']
+        'lib/lpc/mapping.c', 'lib/lpc/buffer.c', 'lib/lpc/class.c', 'lib/misc/hash.c', 'src/error_context.c']
 STUBS = ['@world/world_base.c', '@world/libc_models.c', '@world/vm_world.c', '@world/world_err.c', '@harness/vm/stubs.c']
 KIND = {'NUM': 0, 'REAL': 1, 'STR': 2, 'ARR': 3, 'BUF': 4, 'OBJ': 5, 'STRSH': 6, 'LVARR': 7, 'LVSTR': 8, 'LVBUF': 9}
 A = ['one bytecode step from a VM state of the engine shape: 3 number locals, 3 number globals, operands of the stated kinds with length <= CAP; larger values and multi-step interactions are outside',
@@ -16,7 +16,7 @@ def opcodes(ctx):
             ops[m.group(1)] = int(m.group(2))
     return ops
 
-def step_job(ctx, prefix, op, kinds, oracle=(), cap=3, nsteps=1, op2=None, extra_defs=(), timeout=300, mem=8, desc='', tag='', cuts=None):
+def step_job(ctx, prefix, op, kinds, oracle=(), cap=3, nsteps=1, op2=None, extra_defs=(), timeout=300, mem=8, desc='', tag='', cuts=None, checks=()):
     ops = opcodes(ctx)
     if op not in ops or (op2 and op2 not in ops):
         return None
@@ -31,8 +31,10 @@ def step_job(ctx, prefix, op, kinds, oracle=(), cap=3, nsteps=1, op2=None, extra
     # solver PROVES it unreachable instead of symex unfolding it under every infeasible type-tag guess
     if cuts is None:
         cuts = ['dealloc_mapping', 'dealloc_class', 'dealloc_funp', 'free_mapping', 'free_class']
-    return dict(name=name, cuts=cuts, srcs=['@harness/vm/vm_step.c'] + REAL, stubs=STUBS, defs=defs, unwind=cap + 3,
-                unwindset=['pop_n_elems.0:12', 'harness.0:13', 'harness.1:4', 'harness.2:4', 'harness.3:4', 'post_step.0:9', 'post_step.1:9', 'post_step.2:4', 'strlen.0:%d' % (cap + 8), 'free_svalue:2', 'dealloc_array:2', 'dealloc_class:2', 'dealloc_mapping:2', 'dealloc_funp:1', 'error:1', 'verif_on_error:1', 'post_step:1'],
+    # the real error raising code is replaced by the error model of world_err.c (type_name, save/restore_context stay real)
+    cuts = list(cuts) + ['error', 'error_handler', 'bad_arg', 'bad_argument', 'throw_error', 'mudlib_error_handler', 'debug_message_with_location']
+    return dict(name=name, cuts=cuts, checks=['--bounds-check', '--pointer-check', '--div-by-zero-check'] + list(checks), srcs=['@harness/vm/vm_step.c'] + REAL, stubs=STUBS, defs=defs, unwind=cap + 3,
+                unwindset=['pop_n_elems.0:12', 'harness.0:13', 'harness.1:4', 'harness.2:4', 'harness.3:4', 'post_step.0:9', 'post_step.1:9', 'post_step.2:4', 'strlen.0:%d' % (cap + 30), 'type_name.0:12', 'strcpy.0:32', 'strcat.0:32', 'strncpy.0:32','verif_fmt.0:26', 'verif_fmt.1:26', 'verif_fmt.2:26', 'verif_fmt.3:26', 'verif_fmt.4:26', 'verif_fmt.5:26', 'verif_fmt.6:26', 'verif_fmt.7:26', 'verif_fmt.8:26', 'verif_fmt.9:26', 'verif_fmt.10:26', 'verif_fmt.11:26', 'free_svalue:2', 'dealloc_array:2', 'dealloc_class:2', 'dealloc_mapping:2', 'dealloc_funp:1', 'error:1', 'verif_on_error:1', 'post_step:1'],
                 flags=['--max-field-sensitivity-array-size', '%d' % int(os.environ.get('VM_FS', '600'))], targets=['eval_instruction'], restrict_fp=['free_svalue.function_pointer_call.1/vm_error_handler'], timeout=timeout, mem_gb=mem, opt_witness=['lpc_error_path', 'step_completed', 'returned_from_eval_instruction'],
                 desc=desc or ('one step of the real eval_instruction: %s%s on operands (%s, bottom->top), all values of each kind' % (op, (' then ' + op2) if op2 else '', ', '.join(kinds))),
                 inputs='operand contents (int64 numbers, doubles, bytes, lengths<=%d, refs), operand bytes of the instruction' % cap, assumptions=A)
